@@ -442,6 +442,11 @@ def generate_class_from_struct(
     if attributes is None:
         attributes = []
 
+    # The class is added once its members are done: the literals among them must
+    # not take its name (nor the name it has in C#, `Command` -> `CommandAction`).
+    types.reserve_name(struct.name)
+    types.reserve_name(get_special_case_class_name(struct.name))
+
     inner = []
     usings = ["DataContract", "JsonConstructor"]
 
